@@ -417,6 +417,140 @@ def stream_giveup(seed, n, max_obj=4):
         yield (f"giveup-{seed}-{i}-{shape}{k}", e.ops)
 
 
+def stream_large(seed, n):
+    """fewer but larger histories: 8-24 objects, multiplicities up to 7, hubs with many spokes, tables with dozens of
+    entries (hash-map growth, small-size fast paths and thresholds in the library are invisible to the small streams)"""
+    rng = random.Random(seed ^ 0x1A46E)
+    for i in range(n):
+        e = Est()
+        kind = rng.choice(["ring", "ringtail", "hub", "multi", "dense", "clique", "twolevel", "mutualbig", "manyhandles",
+                           "churn", "hubshrink", "hubshrink", "stardie", "stardie"])
+        k = rng.randint(8, 24)
+        if kind in ("hubshrink", "stardie"):
+            k = rng.randint(10, 32)
+        if kind in ("manyhandles", "churn"):
+            k = rng.randint(2, 3)
+        for _ in range(k):
+            e.new()
+        if kind == "hubshrink":
+            # a table grows to dozens of entries and shrinks again "by the book" while a parallel adoption inside a
+            # ring survives (growth / shrink / compaction policies of the table)
+            m = rng.randint(2, 4)
+            for _ in range(m):
+                e.edge(0, 1)
+            e.edge(1, 0)
+            for j in range(2, k):
+                e.edge(0, j)
+            keep = rng.randint(0, 3)
+            ih = e.find_root(0)
+            while ih is not None and len([t for t in e.held.get(0, []) if t >= 2]) > keep:
+                kk = next(i_ for i_, t in enumerate(e.held[0]) if t >= 2)
+                e.unlink(ih, kk)
+                e.drop(len(e.roots) - 1)
+                ih = e.find_root(0)
+            for j in range(2, k):
+                if rng.random() < 0.8:
+                    ij = e.find_root(j)
+                    if ij is not None:
+                        e.drop(ij)
+        elif kind == "stardie":
+            # an acyclic owner with many adoptees dies on the zero-count path while the adoptees survive; the
+            # survivors are then linked into a ring and released
+            for j in range(1, k):
+                e.edge(0, j)
+            if rng.random() < 0.5:
+                e.downgrade(e.find_root(0))
+            while e.find_root(0) is not None:
+                e.drop(e.find_root(0))
+            surv = [j for j in range(1, k)]
+            for a, b in zip(surv, surv[1:] + surv[:1]):
+                e.edge(a, b)
+        elif kind == "manyhandles":
+            # counts far beyond what the small streams reach (narrow integer types, thresholds on strong/weak)
+            for j in range(k):
+                e.edge(j, (j + 1) % k)
+            n_s = rng.choice([20, 70, 140, 270])
+            n_w = rng.choice([0, 20, 140, 270])
+            for _ in range(n_s):
+                e.clone(0)
+            for _ in range(n_w):
+                e.downgrade(0)
+            e.raw("counts 0")
+            e.raw("wcounts 0")
+            for _ in range(rng.randint(0, n_w)):
+                e.drop_weak(rng.randrange(max(1, len(e.wroots))))
+            e.raw("counts 0")
+            if rng.random() < 0.5:
+                e.raw("wcounts 0")
+        elif kind == "churn":
+            # the same adoption recorded and undone many times, then a few left in place
+            for _ in range(rng.randint(15, 40)):
+                e.edge(0, 1)
+                ia = e.find_root(0)
+                if ia is not None and e.held.get(0):
+                    e.unlink(ia, len(e.held[0]) - 1)
+                    e.drop(len(e.roots) - 1)
+            for _ in range(rng.randint(0, 2)):
+                e.edge(0, 1)
+            e.edge(1, 0)
+        if kind == "ring":
+            for j in range(k):
+                e.edge(j, (j + 1) % k)
+            for _ in range(rng.randint(0, k)):
+                e.edge(rng.randrange(k), rng.randrange(k))
+        elif kind == "ringtail":
+            r = rng.randint(3, k - 2)
+            for j in range(r):
+                e.edge(j, (j + 1) % r)
+            for j in range(r, k):
+                e.edge(rng.randrange(j), j)
+        elif kind == "hub":
+            # one object adopting (and adopted by) many: one table with 2(k-1) entries
+            for j in range(1, k):
+                e.edge(0, j)
+                if rng.random() < 0.7:
+                    e.edge(j, 0)
+        elif kind == "multi":
+            # few objects, large multiplicities
+            m = rng.randint(2, 4)
+            for a in range(m):
+                for _ in range(rng.randint(4, 7)):
+                    e.edge(a, (a + 1) % m)
+            for _ in range(rng.randint(0, 6)):
+                e.edge(rng.randrange(m), rng.randrange(m))
+        elif kind == "dense":
+            for _ in range(rng.randint(2 * k, 4 * k)):
+                e.edge(rng.randrange(k), rng.randrange(k))
+        elif kind == "clique":
+            c = min(k, rng.randint(5, 9))
+            for a in range(c):
+                for b in range(c):
+                    if a != b:
+                        e.edge(a, b)
+        elif kind == "twolevel":
+            # a ring of hubs, each hub with its own spokes pointing back
+            h = rng.randint(3, 5)
+            for a in range(h):
+                e.edge(a, (a + 1) % h)
+            for j in range(h, k):
+                a = rng.randrange(h)
+                e.edge(a, j)
+                e.edge(j, a)
+        elif kind == "mutualbig":
+            for a in range(0, min(k - 1, 6), 2):
+                m1, m2 = rng.sample([1, 2, 4, 5, 6, 7], 2)
+                for _ in range(m1):
+                    e.edge(a, a + 1)
+                for _ in range(m2):
+                    e.edge(a + 1, a)
+        if rng.random() < 0.5:
+            for _ in range(rng.randint(1, 4)):
+                e.downgrade(rng.randrange(max(1, len(e.roots))))
+        mix(rng, e, rng.randint(0, 30), CONTRACT_ALPHA + ["unlink"] * 4 + ["makeMut", "tryUnwrap", "makeMutField", "take"])
+        drop_all(rng, e, 1.0)
+        yield (f"large-{seed}-{i}-{kind}{k}", e.ops)
+
+
 def stream_noadopt(seed, n, max_ops=24):
     rng = random.Random(seed ^ 0x57D)
     for i in range(n):
@@ -460,6 +594,39 @@ def stream_script(seed, n, max_obj=4):
         mix(rng, e, rng.randint(0, 4), CONTRACT_ALPHA)
         drop_all(rng, e, 1.0)
         yield (f"script-{seed}-{i}-{shape}{k}", e.ops)
+
+
+def nested_chain_cases(seed, n):
+    """C10 at depth: groups G1..Gd, each a self-adopted object (or a 2-ring) whose destructor drops the program's handle
+    to the next group: one top-level drop unwinds into d nested collections"""
+    rng = random.Random(seed ^ 0xDEE9)
+    for i in range(n):
+        e = Est()
+        d = rng.choice([3, 4, 5, 6, 7, 9, 12, 17, 24])
+        two = rng.random() < 0.5
+        heads = []
+        for g in range(d):
+            e.new()
+            h = e.nobj - 1
+            heads.append(h)
+            if two:
+                e.new()
+                t = e.nobj - 1
+                e.edge(h, t)
+                e.edge(t, h)
+                e.drop(e.find_root(t))
+            else:
+                e.edge(h, h)
+        # roots are now exactly one handle per group, in order; every destructor drops the first remaining root
+        for g in range(d - 1):
+            ih = e.find_root(heads[g])
+            if ih is not None:
+                e.raw(f"setScript {ih} drop 0" + ("; counts 0" if rng.random() < 0.3 else ""))
+        if rng.random() < 0.5:
+            e.downgrade(len(e.roots) - 1)
+        e.drop(0)
+        drop_all(rng, e, 1.0)
+        yield (f"script-{seed}-nest{i}-d{d}", e.ops)
 
 
 def stream_panic(seed, n, max_obj=4):
